@@ -322,7 +322,19 @@ def t_mask_file(ctx):
         ctx.oblige("frame", lab + ".other_pixel_values_unchanged", Implies(Not(res.isnan(idx)), res.at(idx) == vals0(idx)))
 
 
+def _sky_within(ctx):
+    from contracts import c09
+    return c09.t_sky_within(ctx)
+
+
 def verify(S):
+    # the membership test these functions rely on: Region.sky_within by its C09 contract (finite AND own pixel in the view)
+    if not S.only or 'sky_within' in S.only:
+        ctx = Ctx(S, "regions.Region.sky_within")
+        try:
+            ctx.explore(_sky_within)
+        except Undecided as u:
+            S.undecided.append("regions.Region.sky_within: %s" % u)
     for name, fn in (("MIMAS.mask_plane", t_mask_plane), ("MIMAS.mask_plane", t_mask_plane_complement),
                      ("MIMAS.mask_table", t_mask_table), ("MIMAS.mask_file", t_mask_file)):
         if S.only and S.only not in name:
